@@ -427,6 +427,54 @@ fn run_server_reuse(cx: &mut CaseCx, case: &Value) {
   cx.outcome("server reuse");
 }
 
+
+/// the epoch as the deployment may choose it: empty, non-ASCII, with spaces, long - the clients use its UTF-8
+/// bytes, the server is constructed from the same string; groups of t, t+1, t-1 reports
+fn run_epochs(cx: &mut CaseCx, case: &Value) {
+  let t = case["t"].as_u64().unwrap() as u32;
+  let epochs: Vec<String> = vec!["".into(), "t".into(), "é".into(), "été 2026".into(), "\u{2603}".into(), "2026-W39 / ß".into(), "x".repeat(70), "\u{1F600}e".into(), "\u{ff}".into()];
+  for epoch in epochs {
+    let eb = epoch.as_bytes();
+    let mut reps: Vec<Rep> = vec![];
+    let mut k = 0usize;
+    for (g, cnt) in [t as usize, t as usize + 1, t as usize - 1].iter().enumerate() {
+      let meas = format!("measurement-{}-of-epoch", g).into_bytes();
+      let rnd = local_randomness(&meas, eb, t);
+      for _ in 0..*cnt {
+        getrandom::verif::set_group(k as u32 + 1);
+        let aux = aux_for(k);
+        match gen_report(&meas, eb, t, &rnd, &aux) {
+          Ok(msg) => {
+            if let Some(x) = share_x(&msg.share.to_bytes()) {
+              reps.push(Rep { msg, meas: meas.clone(), aux, x });
+            }
+          }
+          Err(e) => {
+            cx.viol("C18/generate-failed", format!("a client cannot report under the epoch {:?}: {}", epoch, e), json!({"epoch": epoch}));
+            return;
+          }
+        }
+        k += 1;
+      }
+    }
+    let server = AggregationServer::new(t, &epoch);
+    let all: Vec<&Rep> = reps.iter().collect();
+    let want = expected(&all, t);
+    let msgs: Vec<Message> = reps.iter().map(|r| r.msg.clone()).collect();
+    cx.nontrivial(fnv_str(&format!("{}|{}", t, epoch)));
+    let pool = rayon::ThreadPoolBuilder::new().num_threads(2).build().expect("pool");
+    if !judge(cx, observe(&server, &pool, &msgs), &want, &|| json!({"t": t, "epoch": epoch, "epoch_bytes": hexs(eb)})) {
+      if let Some(v) = cx.viols.last_mut() {
+        v.key = format!("{}/epoch", v.key);
+        v.what = format!("clients and server agree on the epoch {:?}: {}", epoch, v.what);
+      }
+      return;
+    }
+    cx.count("epochs_aggregated", 1);
+  }
+  cx.outcome(format!("t={}", t));
+}
+
 /// magnitudes: associated data beyond 64 KiB, thresholds in the hundreds
 fn run_magnitudes(cx: &mut CaseCx, case: &Value) {
   let t = case["t"].as_u64().unwrap() as u32;
@@ -682,6 +730,13 @@ pub fn spec() -> PropSpec {
         gen: |_| [2u64, 3, 5].iter().map(|t| json!({"t": t})).collect(),
         run: run_server_reuse,
         min_counts: &[("calls_on_one_server", 180)],
+      },
+      Check {
+        name: "epochs",
+        rule: "the epoch as a deployment may choose it - empty, 't', 'é', 'été 2026', U+2603, text with spaces and ß, 70 characters, an emoji, U+00FF - used by the clients (its UTF-8 bytes) and to construct the server, t in {2,3}: groups of t, t+1 and t-1 reports are revealed iff >= t, with their clients' associated data",
+        gen: |_| [2u64, 3].iter().map(|t| json!({"t": t})).collect(),
+        run: run_epochs,
+        min_counts: &[("epochs_aggregated", 18)],
       },
       Check {
         name: "magnitudes",
